@@ -709,7 +709,15 @@ func (w *world) oracleC01(v *vlib.Verdict) {
 		hookSeq[h.SequenceNumber]++
 		var hp []string
 		for _, g := range h.DataPointGroups {
+			if g.DataID == nil {
+				v.Fail("C01.sendhook", "nil-data-id", "send hook of seq %d carries a group without a data id", h.SequenceNumber)
+				continue
+			}
 			for _, p := range g.DataPoints {
+				if p == nil {
+					v.Fail("C01.sendhook", "nil-point", "send hook of seq %d carries a nil data point", h.SequenceNumber)
+					continue
+				}
 				hp = append(hp, pkey(*g.DataID, p.ElapsedTime, string(p.Payload)))
 			}
 		}
